@@ -18,7 +18,7 @@ timestamp > last); every timestamp handed to a Record constructor in the store c
 get_timestamp / VersionClock::next or is an API parameter; recovery folds in every scanned timestamp before the
 winner/loser decision. Not decided: numeric monotonicity over histories; clock-shard collisions.
 """
-DECIDED = ["clock fed only on published writes, under the guard, after the gate", "next() = max(wall, last+1) via CAS, returns the installed value",
+DECIDED = ['u64::MAX is never installed into a clock shard', "clock fed only on published writes, under the guard, after the gate", "next() = max(wall, last+1) via CAS, returns the installed value",
            "observe() only raises", "all automatic timestamps come from the clock", "recovery folds every scanned timestamp"]
 NOT_DECIDED = ["numeric monotonicity per key over histories", "clock-shard collisions"]
 ASSUMPTIONS = []
